@@ -1,5 +1,8 @@
 import MsqModel
 import MsqModel.Driver.Codec
+import MsqModel.Driver.ShowVal
+import MsqModel.Parse.Entry
+import MsqModel.Print
 open Lex Drv
 
 def cfgOfIdx : Nat → Cfg Gen.Cls
@@ -15,6 +18,18 @@ def respond (line : String) : String :=
   match line.splitOn " " with
   | ["L", i, h] => showLex (lex (cfgOfIdx i.toNat!) (unhex h))
   | ["LM", h] => showLex (Gen.mybatis.lex (unhex h))
+  | ["P", entry, dn, h] =>
+    (match Gen.D.ofName? dn with
+     | none => "BADREQ dialect"
+     | some d => match PM.parseText entry d (unhex h) with
+       | .ok (v, rest) => s!"OK {rest} {showVal v}"
+       | .error e => e.show)
+  | ["PR", pdn, sdn, h] =>
+    (match Gen.D.ofName? pdn, Gen.D.ofName? sdn with
+     | some pd, some sd => match PM.parseStatementsText pd (unhex h) with
+       | .ok ss => "OK " ++ " ".intercalate (ss.map fun s => match PR.prStmt sd s with | .ok x => "S:" ++ qs x | .error e => "E:" ++ e.show.replace " " "_")
+       | .error e => e.show
+     | _, _ => "BADREQ dialect")
   | ["BADCELLS", i] =>
     let c := certOfIdx i.toNat!
     let bad := badCells (cfgOfIdx i.toNat!) c.1 c.2
